@@ -18,6 +18,7 @@
 EXTENDS Network, Json, IOUtils, SequencesExt
 
 CONSTANTS MaxUpd, MaxIvl, MaxDrop, MaxExp, KnownPad,
+          NetServe,     \* TRUE: the network-wide read after a failed direct fetch is answered (by the lowest-numbered other holder)
           MinChaos      \* simulation only: Settle not before this many steps (0 in the exhaustive configurations)
 \* address universes of the configurations
 FamsRegChunk == <<"reg", "chunk">>
@@ -61,7 +62,7 @@ CJ(c) == CASE c.kind = "none" -> [fam |-> "none"]
 
 \* ------------------------------------------------------------------ steps shared by both phases
 CoreUpdate(n, a, c) ==
-    \E r \in OnStore(content[n], fst[n], n, a, c) :
+    \E r \in OnStore(content[n], fst[n], n, a, c, FALSE) :
        /\ content' = [content EXCEPT ![n] = r.c] /\ fst' = [fst EXCEPT ![n] = r.f]
        /\ Send(r.out, {})
 CoreInterval(n) ==
@@ -77,9 +78,17 @@ CoreDeliver(x) ==
        \/ /\ m.k = "qry"
           /\ Send({OnQry(content[n], n, m.from, m.a)}, {x}) /\ UNCHANGED <<content, fst>>
        \/ /\ m.k = "rsp"
-          /\ \E r \in OnStore(content[n], fst[n], n, m.a, m.c) :
+          /\ LET copy == IF m.c.kind = "none" /\ NetServe THEN NetCopy(content, n, m.a) ELSE m.c IN
+             \E r \in OnStore(content[n], fst[n], n, m.a, copy, TRUE) :
                 /\ content' = [content EXCEPT ![n] = r.c] /\ fst' = [fst EXCEPT ![n] = r.f]
                 /\ Send(r.out, {x})
+\* a message is lost; the loss of a fetch request or of its answer makes the requester fall back to the network-wide read
+CoreDrop(x) ==
+    LET m == x.m  n == IF m.k = "qry" THEN m.from ELSE m.to IN
+    IF m.k = "adv" \/ ~NetServe THEN Send({}, {x}) /\ UNCHANGED <<content, fst>>
+    ELSE \E r \in OnStore(content[n], fst[n], n, m.a, NetCopy(content, n, m.a), TRUE) :
+            /\ content' = [content EXCEPT ![n] = r.c] /\ fst' = [fst EXCEPT ![n] = r.f]
+            /\ Send(r.out, {x})
 
 DoDeliver(x) == CoreDeliver(x) /\ hist' = Append(hist, [ev |-> "Deliver", m |-> MDesc(x)])
 
@@ -94,9 +103,9 @@ Interval(n) == /\ phase = "chaos" /\ left.ivl > 0 /\ AdvKeys(content[n]) # {}
 Deliver(x) == /\ phase = "chaos" /\ x \in msgs
               /\ DoDeliver(x) /\ UNCHANGED <<phase, left, cyc, settled>>
 Drop(x) == /\ phase = "chaos" /\ x \in msgs /\ left.drop > 0
-           /\ Send({}, {x}) /\ left' = [left EXCEPT !.drop = @ - 1]
+           /\ CoreDrop(x) /\ left' = [left EXCEPT !.drop = @ - 1]
            /\ hist' = Append(hist, [ev |-> "Drop", m |-> MDesc(x)])
-           /\ UNCHANGED <<content, fst, phase, cyc, settled>>
+           /\ UNCHANGED <<phase, cyc, settled>>
 Expire(n, e) == /\ phase = "chaos" /\ left.exp > 0 /\ e \in fst[n].og \ fst[n].ogx
                 /\ \E f \in OnExpire(fst[n], e) : fst' = [fst EXCEPT ![n] = f]
                 /\ left' = [left EXCEPT !.exp = @ - 1]
@@ -141,7 +150,7 @@ FetcherSane == \A n \in Node : \A e1, e2 \in fst[n].og : F!KT(e1) = F!KT(e2) => 
 \* the listed known finding must really be in the model
 PadDivergenceExists == ~(phase = "done" /\ \E a \in Addr : Fams[a] = "pad" /\ ~(\A n \in Node : content[n][a] = JoinAt(settled, a, Node)))
 
-Emit == phase = "done" => PrintT(<<"SCN", ToJson([nodes |-> NN, fams |-> Fams, steps |-> hist])>>)
+Emit == phase = "done" => PrintT(<<"SCN", ToJson([nodes |-> NN, fams |-> Fams, netserve |-> NetServe, steps |-> hist])>>)
 
 (***************************************************************************)
 (* Liveness ("periodic replication makes them converge"): no phases here.  *)
@@ -162,8 +171,7 @@ LInterval(n) == /\ AdvKeys(content[n]) # {} /\ ~\E x \in msgs : x.m.k = "adv" /\
                 /\ CoreInterval(n) /\ UNCHANGED left /\ Quiet
 LDeliver(x) == x \in msgs /\ CoreDeliver(x) /\ UNCHANGED left /\ Quiet
 LDeliverOldest == msgs # {} /\ LDeliver(Oldest)
-LDrop(x) == /\ x \in msgs /\ left.drop > 0 /\ Send({}, {x}) /\ left' = [left EXCEPT !.drop = @ - 1]
-            /\ UNCHANGED <<content, fst>> /\ Quiet
+LDrop(x) == /\ x \in msgs /\ left.drop > 0 /\ CoreDrop(x) /\ left' = [left EXCEPT !.drop = @ - 1] /\ Quiet
 LExpire(n, e) == /\ e \in fst[n].og \ fst[n].ogx /\ Orphaned(n, e)
                  /\ \E f \in OnExpire(fst[n], e) : fst' = [fst EXCEPT ![n] = f]
                  /\ UNCHANGED <<content, msgs, nid, left>> /\ Quiet
